@@ -93,11 +93,7 @@ theorem rcSafe_dead (cfg : LexCfg) (h : CfgBase cfg) (s rest : List Char) (hs : 
           have hpart : consumeR1C1Part cfg.cc (d :: u ++ rest) = none := by
             simp only [List.cons_append]
             unfold consumeR1C1Part
-            simp only [hnb, if_false]
-            have : parseI32 (d :: List.takeWhile isDigit (u ++ rest)) = none := by
-              unfold parseI32
-              simp [hnm, hnp, hs]
-            rw [this]
+            simp [hnb, hs]
           simp only [List.cons_append] at hpart
           simp [hpart]
     · simp [hc]
@@ -346,10 +342,16 @@ theorem nextToken_rcStart (cfg : LexCfg) (h : CfgRC cfg) (r : PRef) (X : List Ch
     omega
   rw [if_neg hng]
 
-theorem refOKRC_I32 (r : PRef) (h : refOKRC r = true) : I32 r.row ∧ I32 r.column := by
-  simp only [refOKRC, Bool.and_eq_true, decide_eq_true_eq] at h
-  obtain ⟨⟨⟨h1, h2⟩, h3⟩, h4⟩ := h
-  exact ⟨⟨h1, h2⟩, ⟨h3, h4⟩⟩
+theorem refOKRC_writable (r : PRef) (h : refOKRC r = true) : RcWritable r := by
+  simp only [refOKRC, Bool.and_eq_true, Bool.or_eq_true, Bool.not_eq_true', decide_eq_true_eq] at h
+  obtain ⟨⟨⟨⟨⟨h1, h2⟩, h3⟩, h4⟩, h5⟩, h6⟩ := h
+  refine ⟨⟨h1, h2⟩, ⟨h3, h4⟩, fun ha => ?_, fun ha => ?_⟩
+  · rcases h5 with h5 | h5
+    · rw [ha] at h5; cases h5
+    · exact h5
+  · rcases h6 with h6 | h6
+    · rw [ha] at h6; cases h6
+    · exact h6
 
 theorem printR1C1_pre (pre : List Char) (r : PRef) : printR1C1 pre r = pre ++ printR1C1 [] r := by
   unfold printR1C1; simp
@@ -375,7 +377,7 @@ theorem nextToken_ref_rc (cfg : LexCfg) (h : CfgRC cfg) (sh : Option (List Char)
   have hb : CfgBase cfg := h.toCfgBase
   simp only [tokOK, h.rc, Bool.false_eq_true, if_false, Bool.and_eq_true] at hok
   obtain ⟨hsh, hr⟩ := hok
-  obtain ⟨hi1, hi2⟩ := refOKRC_I32 r hr
+  have hw := refOKRC_writable r hr
   have hfacts : stops (isIdentChar cfg.cc) rest = true ∧ headIs rest '!' = false ∧
       headIs rest '$' = false ∧ headIs rest '(' = false ∧ headIs rest ':' = false := by
     cases rest with
@@ -389,7 +391,7 @@ theorem nextToken_ref_rc (cfg : LexCfg) (h : CfgRC cfg) (sh : Option (List Char)
         by simp [headIs, h5]⟩
   obtain ⟨hstop, hbang, hdollar, hparen, hcolon⟩ := hfacts
   obtain ⟨hd, ha⟩ := stops_of_identChar cfg hb rest hstop
-  have hcellRef := consumeReferenceR1C1_print cfg.cc (charClassOK_of_base cfg hb) r rest hi1 hi2 hd ha
+  have hcellRef := r1c1_roundtrip cfg.cc (charClassOK_of_base cfg hb) r rest hw hd ha
   have hcell : consumeRangeR1C1 cfg.cc (printR1C1 [] r ++ rest)
       = some ({ left := r, right := none }, rest) := by
     unfold consumeRangeR1C1
@@ -420,8 +422,6 @@ theorem nextToken_range_rc (cfg : LexCfg) (h : CfgRC cfg) (sh : Option (List Cha
   have hb : CfgBase cfg := h.toCfgBase
   simp only [tokOK, h.rc, Bool.false_eq_true, if_false, Bool.and_eq_true] at hok
   obtain ⟨hsh, hl, hr⟩ := hok
-  obtain ⟨hl1, hl2⟩ := refOKRC_I32 l hl
-  obtain ⟨hr1, hr2⟩ := refOKRC_I32 r hr
   have hstop : stops (isIdentChar cfg.cc) rest = true := by
     cases rest with
     | nil => rfl
@@ -430,7 +430,7 @@ theorem nextToken_range_rc (cfg : LexCfg) (h : CfgRC cfg) (sh : Option (List Cha
       simp only [badNext, h.rc, Bool.not_false, if_true, Bool.or_eq_false_iff] at hbd
       simp [stops, hbd.1.1.1]
   obtain ⟨hd, ha⟩ := stops_of_identChar cfg hb rest hstop
-  have hcell := r1c1_range_roundtrip cfg.cc (charClassOK_of_base cfg hb) l r rest hl1 hl2 hr1 hr2 hd ha
+  have hcell := r1c1_range_roundtrip cfg.cc (charClassOK_of_base cfg hb) l r rest (refOKRC_writable l hl) (refOKRC_writable r hr) hd ha
   have htxt : printRangeR1C1 [] l r ++ rest = printR1C1 [] l ++ (':' :: (printR1C1 [] r ++ rest)) := by
     simp [printRangeR1C1]
   rw [htxt] at hcell
